@@ -10,7 +10,7 @@ ID="${1:?property id}"
 VERIF="$(cd "$(dirname "$0")/.." && pwd)"
 REPO="${VERIF_REPO:-/repo}"
 DIR="$VERIF/selftest/$ID"
-[ -d "$DIR" ] || { echo "selftest $ID: no corpus"; exit 0; }
+[ -d "$DIR" ] || [ -d "$VERIF/selftest/benign" ] || { echo "selftest $ID: no corpus"; exit 0; }
 export GOFLAGS=-mod=mod GOPROXY=off GOSUMDB=off GOTOOLCHAIN=local; unset GOWORK
 fail=0; n=0; skipped=0
 run_one() {
@@ -37,7 +37,8 @@ run_one() {
   return $rcsum
 }
 pids=()
-for d in "$DIR"/*.diff; do
+# the property's own corpus, then the behaviour-preserving corpus shared by all properties (expect: silent)
+for d in "$DIR"/*.diff "$VERIF"/selftest/benign/*.diff; do
   [ -f "$d" ] || continue
   n=$((n+1))
   run_one "$d" & pids+=($!)
